@@ -2,6 +2,7 @@ package mon
 
 import (
 	"fmt"
+	"github.com/go-jose/go-jose/v3"
 	"net/url"
 	"sort"
 	"strings"
@@ -369,6 +370,32 @@ func C17(c *run.Ctx) {
 				}
 			}
 			c.Count("c17_header_body_mismatch_pushes", 1)
+		}
+		// ---- a push that carries a signed OpenID Connect request object whose client_id claim names ANOTHER client: the claims
+		// end up in the stored form, the request still belongs to the client that pushed (and signed) it
+		{
+			keys := world.GetKeys()
+			w.AddClient(world.ClientSpec{ID: "ro-par", Kind: "oidc", Secret: "s-ro-par", AuthMethod: "client_secret_basic", ReqObjAlg: "RS256",
+				JWKS:         &jose.JSONWebKeySet{Keys: []jose.JSONWebKey{{Key: &keys.ClientRSA[0].PublicKey, KeyID: "k0", Algorithm: "RS256", Use: "sig"}}},
+				RedirectURIs: []string{"https://app-b.example/cb", "https://ro-par.example/cb"}, GrantTypes: world.AllGrants, ResponseTypes: world.AllResponseTypes, Scopes: []string{"openid", "fosite", "offline"}})
+			for _, inObj := range []string{"conf-b", "ro-par"} {
+				obj := world.SignJWT(keys.ClientRSA[0], "RS256", map[string]interface{}{"kid": "k0"}, map[string]interface{}{"iss": "ro-par", "aud": world.Issuer, "client_id": inObj, "response_type": "code",
+					"scope": "openid fosite", "state": "object-state-0123456789", "redirect_uri": "https://app-b.example/cb", "nonce": "nonce-0123456789", "exp": time.Now().Add(time.Hour).Unix()})
+				out := w.PAR(url.Values{"response_type": {"code"}, "scope": {"openid fosite"}, "state": {"state-0123456789"}, "redirect_uri": {"https://app-b.example/cb"}, "nonce": {"nonce-0123456789"}, "request": {obj}}, world.Basic("ro-par", "s-ro-par"))
+				c.Case(fmt.Sprintf("push with request object client_id-claim=%s by ro-par accepted=%v err=%s", inObj, out.Err == nil, out.ErrName))
+				hist = append(hist, fmt.Sprintf("push by ro-par with a signed request object naming client_id=%s => %s %s", inObj, out.S("request_uri"), world.ErrDetail(out.Err)))
+				c.Count("c17_request_object_pushes", 1)
+				if out.Err != nil {
+					continue
+				}
+				as := "conf-b"
+				az := w.Authorize(url.Values{"client_id": {as}, "request_uri": {out.S("request_uri")}}, world.Consent{})
+				okB := az.Err == nil && (az.Params.Get("code") != "" || az.Params.Get("access_token") != "")
+				hist = append(hist, fmt.Sprintf("use as %s => ok=%v %s", as, okB, world.ErrDetail(az.Err)))
+				if okB {
+					viol("request-uri-cross-client", "pushed-with-request-object-naming-another-client", "a request pushed by ro-par (request object with client_id="+inObj+") started an authorization for conf-b")
+				}
+			}
 		}
 		// ---- unknown / foreign-prefix URIs and enforcement
 		for _, u := range []string{effPrefix + "does-not-exist", "urn:ietf:params:oauth:request_uri:" + "AAAA", "urn:other:prefix:xyz", effPrefix} {
